@@ -48,6 +48,40 @@ func familyOfKeyType(kt string) string {
 	return ""
 }
 
+var coreAolFamilies = []string{"Owner", "Topic", "Writer", "Record"}
+
+func isCoreAolFamily(f string) bool {
+	for _, c := range coreAolFamilies {
+		if c == f {
+			return true
+		}
+	}
+	return false
+}
+
+// familyOfPrefix: x/aol/types.TopicKeyPrefix → Topic.
+func familyOfPrefix(prefixVar string) string {
+	n := prefixVar
+	if i := strings.LastIndex(n, "."); i >= 0 {
+		n = n[i+1:]
+	}
+	n = strings.TrimSuffix(n, "KeyPrefix")
+	n = strings.TrimSuffix(n, "Prefix")
+	return n
+}
+
+// extraFamilies: the families of the model beyond the four core ones, sorted.
+func (m *aolModel) extraFamilies() []string {
+	var out []string
+	for f := range m.byFamily {
+		if !isCoreAolFamily(f) {
+			out = append(out, f)
+		}
+	}
+	sort.Strings(out)
+	return out
+}
+
 func buildAolModel(p *Prog) *aolModel {
 	m := &aolModel{p: p, acc: map[*ssa.Function]*aolAccessor{}, byFamily: map[string][]*aolAccessor{},
 		prefixOf: map[string]string{}, handlers: map[string]*ssa.Function{}, msgOf: map[*ssa.Function]*types.Named{},
@@ -90,38 +124,37 @@ func buildAolModel(p *Prog) *aolModel {
 			if k.Args[0].Args[0].Val != nil {
 				a.KeyType = shortPkg(k.Args[0].Args[0].Val.Type().String())
 			}
-			a.Family = familyOfKeyType(a.KeyType)
 		}
 		m.acc[fn] = a
 	}
-	// prefix <-> family table from keyed accessors; iterators join by prefix
+	// a family is a prefix variable (TopicKeyPrefix → Topic, TopicMetaKeyPrefix → TopicMeta): every accessor under one prefix uses
+	// one key type; the four families the properties talk about use their own <Family>CompositeKey. Further families (a feature's
+	// own prefix) are modelled the same way and are "extra": the append-only / authorization / counter rules do not constrain them.
+	keyTypeOf := map[string]string{}
 	for _, a := range m.acc {
-		if a.Family == "" {
-			continue
+		fam := familyOfPrefix(a.Prefix)
+		if a.KeyType != "" {
+			if prev, ok := keyTypeOf[fam]; ok && prev != a.KeyType {
+				m.problems = append(m.problems, fmt.Sprintf("family %s (prefix %s) is accessed with two key types: %s and %s in %s", fam, a.Prefix, prev, a.KeyType, FuncName(a.Fn)))
+			}
+			keyTypeOf[fam] = a.KeyType
+			if isCoreAolFamily(fam) && familyOfKeyType(a.KeyType) != fam {
+				m.problems = append(m.problems, fmt.Sprintf("%s uses key type %s under prefix %s, which belongs to family %s",
+					FuncName(a.Fn), a.KeyType, a.Prefix, fam))
+			}
+			// a core key type under another family's prefix would let one family's guard vouch for another family's entry
+			if kf := familyOfKeyType(a.KeyType); isCoreAolFamily(kf) && isCoreAolFamily(fam) && kf != fam {
+				m.problems = append(m.problems, fmt.Sprintf("prefix %s is shared by key types %s and %s", a.Prefix, kf, fam))
+			}
 		}
-		if prev, ok := m.prefixOf[a.Family]; ok && prev != a.Prefix {
-			m.problems = append(m.problems, fmt.Sprintf("family %s is accessed under two prefixes: %s (e.g.) and %s in %s", a.Family, prev, a.Prefix, FuncName(a.Fn)))
+		a.Family = fam
+		if prev, ok := m.prefixOf[fam]; ok && prev != a.Prefix {
+			m.problems = append(m.problems, fmt.Sprintf("family %s is accessed under two prefixes: %s (e.g.) and %s in %s", fam, prev, a.Prefix, FuncName(a.Fn)))
 		}
-		if _, ok := m.prefixOf[a.Family]; !ok {
-			m.prefixOf[a.Family] = a.Prefix
-		}
+		m.prefixOf[fam] = a.Prefix
+		m.byFamily[fam] = append(m.byFamily[fam], a)
 	}
-	famOfPrefix := map[string]string{}
-	for f, pr := range m.prefixOf {
-		if other, dup := famOfPrefix[pr]; dup && other != f {
-			m.problems = append(m.problems, fmt.Sprintf("prefix %s is shared by key types %s and %s", pr, other, f))
-		}
-		famOfPrefix[pr] = f
-	}
-	for _, a := range m.acc {
-		if a.Family == "" {
-			a.Family = famOfPrefix[a.Prefix]
-		} else if famOfPrefix[a.Prefix] != a.Family {
-			m.problems = append(m.problems, fmt.Sprintf("%s uses key type %s under prefix %s, which belongs to family %s",
-				FuncName(a.Fn), a.KeyType, a.Prefix, famOfPrefix[a.Prefix]))
-		}
-		m.byFamily[a.Family] = append(m.byFamily[a.Family], a)
-	}
+	sort.Strings(m.problems)
 	for f := range m.byFamily {
 		sort.Slice(m.byFamily[f], func(i, j int) bool { return m.byFamily[f][i].Fn.String() < m.byFamily[f][j].Fn.String() })
 	}
@@ -377,14 +410,15 @@ func unconditionalOnSuccess(fn *ssa.Function, in ssa.Instruction, o *Origin) boo
 // ---------------------------------------------------------------------------------------------
 
 type aolHandlerFacts struct {
-	fn       *ssa.Function
-	msg      string
-	o        *Origin
-	fa       *Facts
-	calls    []accCall
-	muts     []accCall
-	kind     string // create-topic | add-writer | delete-writer | add-record | update-topic | unknown
-	problems []string
+	fn        *ssa.Function
+	msg       string
+	o         *Origin
+	fa        *Facts
+	calls     []accCall
+	muts      []accCall
+	extraMuts []accCall
+	kind      string // create-topic | add-writer | delete-writer | add-record | update-topic | unknown
+	problems  []string
 }
 
 func (m *aolModel) analyseHandler(msgName string, fn *ssa.Function) *aolHandlerFacts {
@@ -394,6 +428,10 @@ func (m *aolModel) analyseHandler(msgName string, fn *ssa.Function) *aolHandlerF
 	var sig []string
 	for _, c := range h.calls {
 		if c.acc.Op == "Set" || c.acc.Op == "Delete" {
+			if !isCoreAolFamily(c.acc.Family) {
+				h.extraMuts = append(h.extraMuts, c) // a further family of the module: outside the schemas of the four core families
+				continue
+			}
 			h.muts = append(h.muts, c)
 			sig = append(sig, c.acc.Op+c.acc.Family)
 		}
